@@ -531,12 +531,45 @@ static size_t encode_prog(const struct prog *p, uint8_t *out)
     return n;
 }
 
+/* Named exclusions for findings left open (dormant unless the target's cflags define them; see the
+ * report of C08): the generator then does not construct the triggering pattern, VP_NO_EXCLUDE restores it.
+ *   C08_EXCL_UQUEUE_COUNTER_LAG  excl_uqueue_counter_lag: no queue program with two producers or two consumers
+ *   C08_EXCL_UDEAL_ABORT_NOTIFY  excl_udeal_abort_notify: no contender that aborts after a refused grab */
+static unsigned apply_exclusions(struct prog *p)
+{
+    unsigned n = 0;
+#ifdef C08_EXCL_UQUEUE_COUNTER_LAG
+    if (p->scenario == SC_QUEUE && (p->np > 1 || p->nc > 1)) {
+        p->np = p->nc = 1;
+        memset(p->producer_of, 0, sizeof(p->producer_of));
+        p->quota[0] = p->nitems;
+        p->quota[1] = 0;
+        n++;
+    }
+#endif
+#ifdef C08_EXCL_UDEAL_ABORT_NOTIFY
+    if (p->scenario == SC_DEALER)
+        for (int k = 0; k < p->nd; k++)
+            if (p->dmode[k] == DM_ABORT_ON_REFUSAL) { p->dmode[k] = DM_PLAIN; n++; }
+#endif
+    (void)p;
+    return n;
+}
+
+static bool template_excluded(const struct prog *p)
+{
+    struct prog q = *p;
+    return apply_exclusions(&q) != 0;
+}
+
 static int run(const uint8_t *tp_, size_t len, struct vp_report *rep, unsigned flags)
 {
     struct tape t;
     tp_init(&t, tp_, len);
     struct prog p;
     decode_prog(&t, &p);
+    if (!(flags & VP_NO_EXCLUDE))
+        rep->excluded += apply_exclusions(&p);
     struct vs_config cfg;
     memset(&cfg, 0, sizeof(cfg));
     vs_config_from_tape(&cfg, &t);
@@ -609,6 +642,12 @@ static int extra(int argc, char **argv)
         const struct tmpl *tm = &templates[k];
         if (strcmp(tname, "all") && strcmp(tname, tm->name)) continue;
         matched++;
+        if (template_excluded(&tm->p)) {
+            if (sl < sizeof(space) - 300)
+                sl += (size_t)snprintf(space + sl, sizeof(space) - sl, " [%s: not enumerated, excluded by an open finding]", tm->name);
+            total.complete = 0;
+            continue;
+        }
         vs_enumerate(enum_case, (void *)tm, bound, jobs, &r);
         if (sl < sizeof(space) - 300)
             sl += (size_t)snprintf(space + sl, sizeof(space) - sl, " [%s: %s (%llu schedules)]", tm->name, tm->what, (unsigned long long)r.evaluations);
